@@ -33,6 +33,10 @@ static void record(int h, const m_queue_t *const q) {
         int id = -1;
         for (int i = 0; i < NS; i++) if ((void *)e == (void *)evs[i]) id = i;
         if (nseen < 2 * NS + 2) seen[nseen++] = id;
+#ifdef VF_NESTED
+        /* re-entrant use: the handler asks for one more stashed event while the outer unstash is delivering */
+        if (id == 0 && !restashed) { restashed = 1; restash_r = (int)m_mod_unstash(the_mod, 1); }
+#endif
 #ifdef VF_RESTASH
         /* re-entrant use: the handler puts the oldest event back on the stash while the unstash is delivering it */
         if (id == 0 && !restashed) { restashed = 1; restash_r = m_mod_stash(the_mod, e); }
@@ -68,6 +72,19 @@ int vf_main(void) {
     if (became) { int r = m_mod_become(mod, on_evt2); VF_CHECK(r == 0, "become in RUNNING"); }
     int h = became ? 1 : 0;
 
+#ifdef VF_NESTED
+    /* outer unstash(2) of NS >= 3 events whose handler unstashes 1 more: deliveries 0,1 (outer) and 2 (nested), each once */
+    {
+        ssize_t r0 = m_mod_unstash(mod, 2);
+        VF_CHECK(r0 == 2 && restash_r == 1, "outer unstash returns 2, the nested one 1");
+        VF_CHECK(nseen == 3, "three events delivered so far, none twice");
+        int cnt[NS]; for (int i = 0; i < NS; i++) cnt[i] = 0;
+        for (int i = 0; i < 2 * NS + 2; i++) if (i < nseen && seen[i] >= 0 && seen[i] < NS) cnt[seen[i]]++;
+        VF_CHECK(cnt[0] == 1 && cnt[1] == 1 && cnt[2] == 1, "events 0, 1 and 2 exactly once each");
+        ssize_t r1 = m_mod_unstash(mod, SIZE_MAX);
+        VF_CHECK(r1 == (ssize_t)ns - 3 && nseen == ns, "the rest comes back afterwards: nothing lost, nothing redelivered");
+    }
+#else
     size_t n = nondet_size_t(); VF_ASSUME(n > 0);
     ssize_t r = m_mod_unstash(mod, n);
     size_t exp = n < ns ? n : ns;
@@ -94,6 +111,7 @@ int vf_main(void) {
     VF_CHECK(calls[h] == (exp ? 1 : 0) + ((ns - exp) + extra ? 1 : 0), "second invocation only if something was left");
     VF_CHECK(m_queue_len(mod->stashed) == 0, "stash empty at the end");
     VF_CHECK(bad_content == 0, "content intact (2)");
+#endif
 #endif
     VF_WITNESS("end");
     return 0;
